@@ -34,7 +34,7 @@ func tierMenus(g *vlib.G) *menus {
 			ldDeltas: []int{0, 1, 3},
 			realSc:   []complex128{0, 1, -1, 2, 0.5},
 			cmplxSc:  []complex128{0, 1, 1i, -1 + 2i, 0.5},
-			fills:    []fillSpec{{0, 0, false}, {1, 2, false}, {2 + uint64(g.Seed&0xffffff), 2, true}},
+			fills:    []fillSpec{{Pattern: 0, Slack: 0, Finite: false}, {Pattern: 1, Slack: 2, Finite: false}, {Pattern: 2 + uint64(g.Seed&0xffffff), Slack: 2, Finite: true}},
 			band:     func(n int) []int { return dedup([]int{0, 1, 2, n - 1, n + 1}) },
 		}
 	}
@@ -46,7 +46,7 @@ func tierMenus(g *vlib.G) *menus {
 		ldDeltas: []int{0, 2},
 		realSc:   []complex128{0, 1, 2, 0.5},
 		cmplxSc:  []complex128{0, 1, -1 + 2i, 0.5},
-		fills:    []fillSpec{{0, 0, false}, {1, 2, true}},
+		fills:    []fillSpec{{Pattern: 0, Slack: 0, Finite: false}, {Pattern: 1, Slack: 2, Finite: true}},
 		band:     func(n int) []int { return dedup([]int{0, 1, n + 1}) },
 	}
 }
@@ -258,7 +258,7 @@ func runCase(t *vlib.T, cs *caseSpec, mn *menus, inv invoker, reduced bool) {
 	if reduced { // wrapper groups: a reduced product
 		incs = []int{1, 2}
 		lds = []int{1}
-		fills = []fillSpec{{0, 0, false}, {1, 2, true}}
+		fills = []fillSpec{{Pattern: 0, Slack: 0, Finite: false}, {Pattern: 1, Slack: 2, Finite: true}}
 		if !r.Has("P") {
 			// alpha ∈ {0, one non-zero value} × beta ∈ {0, 1, one other value}
 			var keep []scalarSetting
@@ -330,7 +330,20 @@ func runCase(t *vlib.T, cs *caseSpec, mn *menus, inv invoker, reduced bool) {
 			}
 		}
 	}
+	if !reduced {
+		if msg, sub := zeroSweep(&c, cs, mn, settings, vecs, mats, inv, &st); msg != "" {
+			if class := findingClass(&c, msg); class != "" {
+				t.FailClass(class, "%s [%s]: %s", cs.key(), sub, msg)
+			} else {
+				t.Failf("%s [%s]: %s", cs.key(), sub, msg)
+			}
+			t.Detail(map[string]any{"subcall": sub, "message": msg})
+			return
+		}
+	}
 	t.Count("calls", st.calls)
+	t.Count("calls_exact_zero_sweep", st.zeroCalls)
+	t.Count("exact_zero_elements_placed", st.exactZeros)
 	t.Count("result_elements_compared", st.written)
 	t.Count("returned_values_compared", st.retChecked)
 	t.Count("slots_checked_bitwise_unchanged", st.unchangedChecked)
@@ -366,6 +379,101 @@ func findingClass(c *Call, msg string) string {
 		return "ger-asm-negative-inc"
 	}
 	return ""
+}
+
+// zeroMasks lists the exact-zero masks of operand k: for a vector the
+// single positions first/middle/last and all pairs of them; for a matrix the
+// same for its rows and for its columns (pairs only when pairs is set).
+func zeroMasks(r *Routine, k int, pairs bool) []*zeroMask {
+	sets := [][]int{{0}, {1}, {2}, {0, 1}, {0, 2}, {1, 2}}
+	var out []*zeroMask
+	if r.Ops[k].Kind == Vector {
+		for _, s := range sets {
+			out = append(out, &zeroMask{Op: k, Pos: s})
+		}
+		return out
+	}
+	if !pairs {
+		sets = sets[:3]
+	}
+	for axis := 0; axis < 2; axis++ {
+		for _, s := range sets {
+			out = append(out, &zeroMask{Op: k, Axis: axis, Pos: s})
+		}
+	}
+	return out
+}
+
+// zeroSweep runs the exact-zero sweep of a case: with all other elements
+// non-zero, exact zeros are placed at single positions and pairs of
+// positions of every vector operand and in rows and columns of every matrix
+// operand (one operand at a time), for increments of both signs, one
+// non-trivial alpha and beta ∈ {0, one other value}, the first ld variant, the
+// guard mode and slice slack alternating from mask to mask. Many routines
+// skip work for x[j] == 0, y[j] == 0 or alpha*x[j] == 0; the random fills
+// rarely put an exact 0+0i in the middle of a complex vector.
+func zeroSweep(c *Call, cs *caseSpec, mn *menus, settings []scalarSetting, vecs, mats []int, inv invoker, st *runStats) (msg, sub string) {
+	r := cs.r
+	var use []scalarSetting
+	if r.Has("P") {
+		for i := 1; i < len(settings); i += 2 {
+			use = append(use, settings[i])
+		}
+	} else {
+		last := settings[len(settings)-1]
+		for _, ss := range settings {
+			if ss.a == last.a && (ss.b == last.b || ss.b == 0) {
+				use = append(use, ss)
+			}
+		}
+	}
+	incChoices := [][]int{nil}
+	switch len(vecs) {
+	case 1:
+		incChoices = [][]int{{1}, {-2}}
+	case 2:
+		incChoices = [][]int{{1, 1}, {1, -2}, {-2, 1}, {-1, -2}}
+	}
+	for j, k := range mats {
+		c.Ld[k] = MinLd(c, k) + mn.ldDeltas[j%len(mn.ldDeltas)]
+	}
+	hasBeta := r.Has("beta")
+	pairs := len(mn.fills) > 2 // thorough
+	nmask := 0
+	for _, ic := range incChoices {
+		for j, k := range vecs {
+			c.Inc[k] = ic[j]
+		}
+		for _, ss := range use {
+			ss.apply(c)
+			for k := range r.Ops {
+				if hasBeta && r.Ops[k].Access == InOut && c.Beta == 0 {
+					continue // write-only operand: holds no values
+				}
+				seen := map[string]bool{}
+				for _, z := range zeroMasks(r, k, pairs) {
+					extent := r.Ops[k].Rows(c)
+					if z.Axis == 1 {
+						extent = r.Ops[k].Cols(c)
+					}
+					key := fmt.Sprint(z.Axis, z.resolve(extent))
+					if len(z.resolve(extent)) == 0 || seen[key] {
+						continue // empty operand, or the same zeros as an earlier mask
+					}
+					seen[key] = true
+					nmask++
+					fs := fillSpec{Pattern: 7, Slack: 2 * (nmask / 2 % 2), Finite: nmask%2 == 1, Zero: z}
+					calls := st.calls
+					m := runCall(c, fs, inv, st)
+					st.zeroCalls += st.calls - calls
+					if m != "" {
+						return m, fmt.Sprintf("ld=%v inc=%v%s fill=%v", ldList(c, mats), ic, ss.desc, fs)
+					}
+				}
+			}
+		}
+	}
+	return "", ""
 }
 
 func ldList(c *Call, mats []int) []int {
